@@ -36,6 +36,9 @@ CRAFTED = [
     "select a between 1 and b + 2, not c, -d, (e, f) from t",
     "select * from t1 where a = ? and b like ? limit 3 offset 1",
     "select * from int1 (select * from x) as q join t2 on q.a = t2.a",
+    "select count(*) from t where b = ? having count(*) > ?",
+    "select max(x) from t having max(x) > (select avg(y) from limits)",
+    "select a, b.*, c from t order by a",
 ]
 
 
@@ -83,7 +86,7 @@ class Projector:
         from mindsdb_sql.parser.ast.base import ASTNode
         kind = type(node).__name__
         if getattr(node, '_verif_marker', False):
-            return {'k': 'Marker', 'id': 0, 'ch': []}
+            return {'k': 'Marker', 'id': -getattr(node, '_verif_marker_n', 0), 'ch': []}
         if id(node) not in self.idmap:
             if not assign:
                 return {'k': 'New:' + kind, 'id': -1, 'ch': []}
@@ -201,11 +204,34 @@ class _Marker:
     """Replacement node returned by the visitor (an Identifier so that printing still works)."""
 
 
-def make_marker():
+def make_marker(n=0):
     from mindsdb_sql.parser.ast import Identifier
-    m = Identifier(parts=['__marker__'])
+    m = Identifier(parts=['__marker%d__' % n])
     m._verif_marker = True
+    m._verif_marker_n = n
     return m
+
+
+def run_replace2(root, idmap, plan):
+    """plan: {spec id of the node: [marker numbers]}; a list of >1 markers is returned as a python list."""
+    from mindsdb_sql.planner.utils import query_traversal
+    state = {'n': 0}
+    repl = []
+
+    def cb(node, is_table=False, is_target=False, parent_query=None, **kw):
+        if node is None:
+            return None
+        if id(node) not in idmap and not isinstance(node, (list, tuple, dict, str, int, float)):
+            return None
+        state['n'] += 1
+        ms = plan.get(idmap.get(id(node), -1))
+        if ms:
+            repl.append([idmap.get(id(node), -1), list(ms)])
+            mk = [make_marker(n) for n in ms]
+            return mk if len(mk) > 1 else mk[0]
+        return None
+    res = query_traversal(root, cb)
+    return (res if res is not None else root), repl
 
 
 def run_visit(root, idmap):
@@ -293,6 +319,30 @@ def run(ctx):
                 continue
             traces.append({'kind': 'replace', 't': t_spec, 'target': target, 'after': after})
             meta.append((source, k))
+        # two replacements in one run; a select-list item may be answered with a list (spliced in place)
+        tg = [g['id'] for g in got if g['target']]
+        plans = []
+        if len(tg) >= 2:
+            plans.append({tg[0]: [1, 2], tg[1]: [3]})
+            plans.append({tg[0]: [1], tg[-1]: [2, 3]})
+        if len(got) >= 3:
+            a, b = rng.sample([g['id'] for g in got[1:]], 2)
+            plans.append({a: [1], b: [2]})
+        for plan in plans:
+            try:
+                root2, idmap2 = make_root()
+                after_root, repl = run_replace2(root2, idmap2, plan)
+                pj = Projector(schema)
+                pj.idmap = dict(idmap2)
+                after = pj.tree(after_root, assign=False)
+            except Exception as e:   # noqa
+                ctx.violation('walker-raises-on-replace:%s' % type(e).__name__,
+                              'query_traversal raised when the visitor returned replacements: %s' % e,
+                              {'source': source, 'tree': t_spec, 'plan': {str(k_): v for k_, v in plan.items()}})
+                continue
+            # a second replacement inside a subtree that was already replaced is never visited: drop unreached ones
+            traces.append({'kind': 'replace2', 't': t_spec, 'repl': repl, 'after': after})
+            meta.append((source, 'plan:%s' % sorted(plan.items())))
 
     # spec -> code
     for t in gen:
@@ -359,6 +409,14 @@ def run(ctx):
             for x in j['unexpected']:
                 ctx.violation('unexpected-visit', 'visitor called for an object that is not a node of the statement',
                               {'source': source, 'tree': tr['t'], 'got': tr['got']})
+        elif v[0] == 'replace2':
+            n_repl += 1
+            if v[1] != 'ok':
+                coords = sorted(set(str(locate(tr['t'], r_[0])) + ('[list]' if len(r_[1]) > 1 else '') for r_ in tr['repl']))
+                ctx.violation('replace-many:%s' % '+'.join(coords),
+                              'with several replacements in one run (a list for a select-list item is spliced in place) '
+                              'the resulting tree is not the one the contract demands',
+                              {'source': source, 'plan': k, 'repl': tr['repl'], 'tree': tr['t'], 'after': tr['after']})
         else:
             n_repl += 1
             if v[1] != 'ok':
